@@ -210,7 +210,19 @@ DFixedList2 == <<
     Def("Root", TStruct(<<F("sep", TConst(JStr("@bt"))), F("mode", TEnum(<<"@bt", "plain">>)), FOptDef("d", PlainStr, JStr("@bt")),
                           FOpt("u", PlainStr), F("du", TDUnion("kind", <<"Tab", "Plain">>))>>)),
     Def("Tab", TStruct(<<F("kind", TConst(JStr("@bt"))), F("n", PlainInt)>>)),
-    Def("Plain", TStruct(<<F("kind", TConst(JStr("plain"))), FOpt("s", PlainStr)>>))>>, FALSE)
+    Def("Plain", TStruct(<<F("kind", TConst(JStr("plain"))), FOpt("s", PlainStr)>>))>>, FALSE),
+  \* OPTIONAL constants (string, integer; at the root, in a referenced struct, in array items): Docs() holds documents WITH each of
+  \* them (base) and WITHOUT (the one-place variants that drop an optional field)
+  Fixed("optional-constants", <<
+    Def("Root", TStruct(<<F("text", PlainStr), FOpt("kind", TConst(JStr("note"))), FOpt("level", TConst(JInt(2))), F("inner", TRef("In")),
+                          FOpt("items", TArr(TRef("In"))), F("fixed", TConst(JStr("f")))>>)),
+    Def("In", TStruct(<<F("v", PlainInt), FOpt("tag", TConst(JStr("t")))>>))>>, FALSE),
+  \* collections whose items reach a discriminated union through a REFERENCE to a named union object, next to the inline variants
+  Fixed("named-union-collections", <<
+    Def("Root", TStruct(<<F("list", TArr(TRef("DS"))), FOpt("byKey", TMap(TRef("DS"))), FOpt("nested", TArr(TArr(TRef("DS")))),
+                          FOpt("mixed", TMap(TArr(TRef("DS")))), FOpt("inlineList", TArr(TDUnion("kind", <<"Zebra", "Apple">>))),
+                          FOpt("one", TRef("DS")), FOpt("viaAlias", TArr(TRef("DS2")))>>)),
+    Def("DS", TDUnion("kind", <<"Mango", "Zebra">>)), Def("DS2", TRef("DS")), UMango, UZebra, UApple>>, FALSE)
 >>
 
 \* the default declared as a disjunction of the type with a CONSTANT (compiler pass disjunction_with_constant_to_default, enabled for
